@@ -2847,3 +2847,21 @@ T("C07", "twin-scc-direct-iteration", DL,
   "    scc_events = list(strongly_connected_components(graph))\n    for scc_nodes in scc_events:",
   "    for scc_nodes in tuple(strongly_connected_components(graph)):",
   "same order, no temporary")
+
+M("C05", "sink-failure-swallowed", PG,
+  "    for dummy_break_event_node in dummy_break_event_nodes:\n        update_graph_for_dummy_break_event_node(dummy_break_event_node, graph)",
+  "    for dummy_break_event_node in dummy_break_event_nodes:\n        try:\n            update_graph_for_dummy_break_event_node(\n                dummy_break_event_node, graph\n            )\n        except NotImplementedError:\n            continue",
+  "R5.4", "an unresolvable break point is skipped; the placeholder is written (seed C05-u)")
+T("C05", "twin-sink-failure-rewrapped", PG,
+  "    for dummy_break_event_node in dummy_break_event_nodes:\n        update_graph_for_dummy_break_event_node(dummy_break_event_node, graph)",
+  "    for dummy_break_event_node in dummy_break_event_nodes:\n        try:\n            update_graph_for_dummy_break_event_node(\n                dummy_break_event_node, graph\n            )\n        except NotImplementedError as error:\n            raise NotImplementedError(\n                f\"unsupported break point: {error}\"\n            ) from error",
+  "the failure still aborts the conversion, with a better message")
+
+M("C01", "event-with-gate-stands-for-leaves", NODE,
+  "    return (\n        node.traverse_logic(\"outgoing\")\n        if node.operator is not None\n        else [node]\n    )",
+  "    return node.traverse_logic(\"outgoing\") or [node]",
+  "R1.22", "an event node that owns a gate is replaced by the gate's leaves (seed C01-v)")
+T("C01", "twin-node-as-list-if-statement", NODE,
+  "    return (\n        node.traverse_logic(\"outgoing\")\n        if node.operator is not None\n        else [node]\n    )",
+  "    if node.operator is None:\n        return [node]\n    return node.traverse_logic(\"outgoing\")",
+  "guard clause instead of the conditional expression")
